@@ -291,8 +291,9 @@ void print_custom_keywords(FILE *pfile)
 
       if (tt == CT_TYPE)
       {
-         fprintf(pfile, "custom type %*.s%s\n",
-                 uncrustify::limits::MAX_OPTION_NAME_LEN - 10, " ",
+         // written the way process_option_line() reads it back: "type WORD"
+         fprintf(pfile, "type %*.s%s\n",
+                 uncrustify::limits::MAX_OPTION_NAME_LEN - 5, " ",
                  keyword_pair.first.c_str());
       }
       else if (tt == CT_MACRO_OPEN)
